@@ -198,10 +198,56 @@ def run(tier):
                 v.distinct((n, place, _short(h)))
                 if v.cov["evaluations"] % 3000 == 1:
                     v.sample({"n": n, "placement": place, "history": _short(h), "records": recs[1:6]})
+    # the reserve is sufficient for every instruction the library can emit: each line of the encoder corpora, with exactly 20 bytes of room,
+    # in front of a guard page. (The room model above relies on "no instruction is longer than the reserve".)
+    from .. import isa, enc
+    pool = isa.gen_mem(False, rnd, per_class=60 if not full else 600) + isa.gen_imm(rnd, False) + rnd.sample(isa.gen_int_regs(), 1500 if not full else 20000)
+    pool += isa.gen_vec_regs(corners_only=True, rnd=rnd, frac=0.0) + isa.gen_far(rnd) + [c for c in isa.gen_branch(rnd, 8) if c["d"] % 4 == 0]
+    texts = sorted(set(c["text"] for c in pool))
+    if not full:
+        texts = rnd.sample(texts, min(len(texts), 12000))
+    cases, meta = [], []
+    for t in texts:
+        n, k = rnd.choice([(20, 0), (41, 21), (84, 64), (4096, 4076)])
+        mask = rnd.choice(enc.COMBOS)
+        cmds = ["new 0 ext %d R 0xcc" % n, "opt 0 mov %s" % mask[0], "opt 0 swap %s" % mask[1], "opt 0 nobase %s" % mask[2], "setoff 0 %d" % k,
+                "asm 0 %s" % common.hx(t), "guard 0"]
+        cases.append(cmds)
+        meta.append((t, n, k, mask))
+    out = common.run_cases(plain, cases, tag="c07r")
+    stats["reserve_lines"] = len(cases)
+    stats["reserve_lines_accepted"] = 0
+    stats["reserve_longest"] = 0
+    for (t, n, k, mask), cmds, r in zip(meta, cases, out):
+        v.count()
+        case = {"key": "reserve %r n=%d off=%d [%s]" % (t, n, k, mask), "fam": "reserve", "text": t, "n": n, "place": "R", "script": cmds}
+        recs = r["records"]
+        bad = None
+        if r["crash"]:
+            bad = (r["crash"]["sig"], r["crash"]["what"] + "\n" + r["crash"]["stderr"][-1000:])
+        else:
+            a = recs[5].split()
+            g = recs[-1].split()
+            if a[0] != "A":
+                bad = ("malformed-record", recs[5])
+            elif int(a[5]):
+                bad = ("wrote-before-call-start", recs[5])
+            elif int(a[6]) or (g[0] == "U" and int(g[1])):
+                bad = ("canary-damaged:after-buffer", recs[5] + " / " + recs[-1])
+            elif int(a[1]) == 0 and int(a[3]) > n:
+                bad = ("offset-beyond-buffer", recs[5])
+            elif int(a[1]) == 0:
+                stats["reserve_lines_accepted"] += 1
+                stats["reserve_longest"] = max(stats["reserve_longest"], int(a[3]) - k)
+        if bad:
+            v.violation(case, bad[0], bad[1])
+        else:
+            v.distinct(("reserve", t, n))
     v.cov["rule"] = ("histories create(n) + <=6 ops from {option setters, chunk size, asm_set_offset(0<=k<=n), assemble, counting assemble} with 1/2/3/7/10/13-byte instructions, malformed lines and "
                      "failing calls followed by further calls without resetting the offset; n = 0..64 exhaustively x a fixed family of 40 templates x 3 guard placements (ASan heap redzones; guard page "
                      "directly after / directly before the buffer with canary slack on the other side), then seeded random histories on n in {0..199,100,400,4096,4097,6000}. Monitors: guard-page fault, "
-                     "canary, snapshot of [0,start) around every call, ASan, and the room model (an instruction starting with < 20 bytes left => the call must fail)")
+                     "canary, snapshot of [0,start) around every call, ASan, and the room model (an instruction starting with < 20 bytes left => the call must fail). Plus: every line of the "
+                     "encoder corpora (all memory shapes incl. displacements spelt as 64-bit two's complement, immediates, vector and branch forms; sampled in quick) assembled with exactly 20 bytes of room in front of a guard page")
     v.cov["exhaustive"] = True
     v.cov.update(stats)
     v.assumptions.append("a wild write into another valid mapping of the process that is neither guard, canary, redzone nor snapshot memory is invisible")
